@@ -8,8 +8,8 @@ CONSTANTS
   MaxTag = 0
   M = 16
   InitEp = {0}
-  MaxEp = 8
-  MaxOps = 3
+  MaxEp = 5
+  MaxOps = 2
   MaxDepth = 3
   ExpAge = 3
   CasAge = 3
